@@ -68,13 +68,13 @@ func c19Race(c *Ctx) {
 	t0 := time.Now()
 	out, err := cmd.CombinedOutput()
 	if err != nil {
-		// no race build = no race evidence; never a failure of the property
-		c.Count("race:inconclusive:race-build-failed")
+		// no race build = no race evidence: reported, not silently skipped (the race tier is part of the check)
 		msg := string(out)
-		if len(msg) > 600 {
-			msg = msg[len(msg)-600:]
+		if len(msg) > 1200 {
+			msg = msg[len(msg)-1200:]
 		}
-		c.Samples = append(c.Samples, "race build failed: "+strings.ReplaceAll(msg, "\n", " | "))
+		c.Count("race:race-build-failed")
+		c.Fail("c19/race-build-failed", "the -race build of the hammer failed: the race tier produced no evidence: "+strings.ReplaceAll(msg, "\n", " | "), nil)
 		return
 	}
 	c.Stats["race:build-seconds"] = int(time.Since(t0).Seconds())
@@ -82,20 +82,47 @@ func c19Race(c *Ctx) {
 	if v := os.Getenv("VERIF_C19_RACE_ROUNDS"); v != "" {
 		fmt.Sscan(v, &rounds)
 	}
-	text, ran := c19RunHammer(c, exe, "c19-hammer", "race", rounds, 900*time.Second)
-	if !ran {
-		return
+	// every child under the detector; the canary child is the POSITIVE CONTROL of the whole pipeline
+	// (build flags, GORACE options, stderr capture, parser): its planted race must come back as a report
+	type job struct {
+		sub, mode string
+		rounds    int
 	}
-	pairs := c19ParseRaces(text, repo)
-	keys := make([]string, 0, len(pairs))
-	for k := range pairs {
+	jobs := []job{{"c19-racecanary", "race-canary", 1}, {"c19-hammer", "race", rounds}, {"c19-confirmrace", "race-confirmrace", 3}, {"c19-mineinsert", "race-mineinsert", 1}, {"c19-maprace", "race-maprace", 2}}
+	all := map[string]*c19RacePair{}
+	reports := 0
+	for _, j := range jobs {
+		text, ran := c19RunHammer(c, exe, j.sub, j.mode, j.rounds, 900*time.Second)
+		if !ran {
+			continue
+		}
+		n := strings.Count(text, "WARNING: DATA RACE")
+		if j.sub == "c19-racecanary" {
+			if n == 0 || !strings.Contains(text, "c19RaceCanary") {
+				c.Fail("c19/race-detector-inactive", "positive control failed: the planted data race of the canary child (two goroutines writing one harness variable) was not reported by the -race build; the race tier proves nothing in this state", nil)
+			} else {
+				c.Count("race:canary-planted-race-reported(positive control)")
+			}
+			continue
+		}
+		reports += n
+		for k, p := range c19ParseRaces(text, repo) {
+			if q := all[k]; q != nil {
+				q.n += p.n
+			} else {
+				all[k] = p
+			}
+		}
+	}
+	keys := make([]string, 0, len(all))
+	for k := range all {
 		keys = append(keys, k)
 	}
 	sort.Strings(keys)
 	c.Stats["race:distinct-pairs"] = len(keys)
-	c.Stats["race:reports"] = strings.Count(text, "WARNING: DATA RACE")
+	c.Stats["race:reports"] = reports
 	for _, k := range keys {
-		c.Fail("c19/data-race/"+k, "race detector ("+fmt.Sprint(pairs[k].n)+" report(s)): "+pairs[k].example, map[string]interface{}{"report": pairs[k].block})
+		c.Fail("c19/data-race/"+k, "race detector ("+fmt.Sprint(all[k].n)+" report(s)): "+all[k].example, map[string]interface{}{"report": all[k].block})
 	}
 	os.RemoveAll(bdir)
 }
@@ -247,4 +274,32 @@ func c19VarOfFunc(fn string) string {
 		}
 	}
 	return best
+}
+
+// ---------------------------------------------------------------- positive control of the race tier
+
+func init() { subs["c19-racecanary"] = c19RaceCanaryChild }
+
+var c19RaceCanaryVar int
+
+//go:noinline
+func c19RaceCanary(v int) { c19RaceCanaryVar = v }
+
+// c19RaceCanaryChild plants one data race inside the harness itself (never inside /repo): under a -race build the
+// detector must print a report naming c19RaceCanary; the parent checks that it does.
+func c19RaceCanaryChild(c *Ctx) {
+	h := &c19Hammer{res: &c19HResult{Rounds: 1, Counts: map[string]int{}}, out: c.Out, rnd: c.Rnd, seen: map[string]bool{}}
+	done := make(chan struct{})
+	go func() {
+		for i := 0; i < 1000; i++ {
+			c19RaceCanary(i)
+		}
+		close(done)
+	}()
+	for i := 0; i < 1000; i++ {
+		c19RaceCanary(-i)
+	}
+	<-done
+	h.res.Completed, h.res.Done = 1, true
+	h.flush()
 }
